@@ -55,19 +55,35 @@ func runC20(r *Run) {
 		accEdges, _ := a.IfEdges("("+fparam+" == %gexchange.FeedbackAccepted)", true, nil)
 		anyEq, _ := a.IfEdges("("+fparam+" == $k)", true, func(b Bind) bool { return b["$k"].K == "const" })
 		n := 0
+		type outcome struct {
+			val string
+			at  ssa.Instruction // instruction whose reachability stands for "this value is returned"
+		}
 		for _, ret := range a.Returns() {
-			n++
-			s := a.sh.Of(ret.Results[0]).String()
-			con := fmt.Sprintf("%s#return%d(%s)", FuncName(mapFn), n, s)
-			switch {
-			case s == ignore:
-				r.Pass("C20.1", con, w.InstrPos(ret), "Ignore needs no guard")
-			case s == accept:
-				r.Check(a.EveryPathTakes(ret, accEdges), "C20.1", con, w.InstrPos(ret), "ValidationAccept must be dominated by the f == FeedbackAccepted edge")
-			case strings.HasPrefix(s, "%pubsub.Validation"):
-				r.Check(a.EveryPathTakes(ret, anyEq), "C20.1", con, w.InstrPos(ret), "a non-Ignore result must be under an explicit equality on the feedback value")
-			default:
-				r.Fail("C20.1", con, w.InstrPos(ret), "result is not a ValidationResult constant: "+s)
+			var outs []outcome
+			if ph, ok := ret.Results[0].(*ssa.Phi); ok {
+				// single-return style: judge each incoming value at the end of its predecessor block
+				for i, e := range ph.Edges {
+					pred := ph.Block().Preds[i]
+					outs = append(outs, outcome{a.sh.Of(e).String(), pred.Instrs[len(pred.Instrs)-1]})
+				}
+			} else {
+				outs = append(outs, outcome{a.sh.Of(ret.Results[0]).String(), ret})
+			}
+			for _, o := range outs {
+				n++
+				s := o.val
+				con := fmt.Sprintf("%s#result%d(%s)", FuncName(mapFn), n, s)
+				switch {
+				case s == ignore:
+					r.Pass("C20.1", con, w.InstrPos(o.at), "Ignore needs no guard")
+				case s == accept:
+					r.Check(a.EveryPathTakes(o.at, accEdges), "C20.1", con, w.InstrPos(o.at), "ValidationAccept (also the zero value of the result type) must be produced only on the f == FeedbackAccepted edge")
+				case strings.HasPrefix(s, "%pubsub.Validation"):
+					r.Check(a.EveryPathTakes(o.at, anyEq), "C20.1", con, w.InstrPos(o.at), "a non-Ignore result must be under an explicit equality on the feedback value")
+				default:
+					r.Fail("C20.1", con, w.InstrPos(o.at), "result is not a ValidationResult constant: "+s)
+				}
 			}
 		}
 		r.Expect("C20.1", 3, "returns of the feedback mapping")
